@@ -244,9 +244,10 @@ def families(eng, tier, seed):
     fams.append(run_family("corpus-versions-stripped", lambda eng: symbolize_leaves(eng, strip_segment(C["versions"], ("v1", "v2")), tie_paths=False), tier))
     fams.append(run_family("corpus-versions-stripped-reversed", lambda eng: permute(strip_segment(C["versions"], ("v1", "v2")), list(reversed(range(len(C["versions"]))))), tier))
     # two versions whose fields use the two parameters the other way round (parameter names: one a prefix of the other)
-    VH = strip_segment(C["versions_hdr"], ("h1", "h2"))
-    fams.append(run_family("corpus-versions-hdr-stripped", lambda eng: symbolize_leaves(eng, VH, tie_paths=False), tier))
-    fams.append(run_family("corpus-versions-hdr-stripped-reversed", lambda eng: permute(VH, list(reversed(range(len(VH))))), tier))
+    for vn in ("versions_hdr", "versions_hdr_mirror"):
+        VH = strip_segment(C[vn], ("h1", "h2"))
+        fams.append(run_family("corpus-%s-stripped" % vn, (lambda VH: lambda eng: symbolize_leaves(eng, VH, tie_paths=False))(VH), tier))
+        fams.append(run_family("corpus-%s-stripped-reversed" % vn, (lambda VH: lambda eng: permute(VH, list(reversed(range(len(VH))))))(VH), tier))
     for n in ("assoc_skip", "assoc_noskip", "assoc_same", "generics", "tree", "bits_generic", "compact_generic", "phantom", "modules", "skipnest", "swapper"):
         fams.append(run_family("corpus-" + n, (lambda n: lambda eng: symbolize_leaves(eng, C[n]))(n), tier))
         fams.append(run_family("corpus-%s-reversed" % n, (lambda n: lambda eng: permute(C[n], list(reversed(range(len(C[n]))))))(n), tier))
